@@ -636,6 +636,32 @@ def restripe_buffers(V, nbuf):
     return cl
 
 
+def area_required(V, mode):
+    """the rows and columns of IFM the scheduler reserves for a stripe under x2 upscaling or none (the REAL get_ifm_area_required -> _required_size),
+    independent of what the lowerings generate today: symbolic stripe height/width, kernel 1..8 x 1..8, strides 1..3.  A window of
+    n = (v - 1) * stride + kernel upscaled rows touches, whatever its alignment, at most ceil((n + 1) / 2) input rows when every input row is
+    repeated (NEAREST), ceil(n / 2) when zeros are inserted (TRANSPOSE), n without upscaling - the reservation must be at least that (it is the
+    stripe_input the rolling buffers are sized from) and not more than one row above it."""
+    import ethosu.vela.architecture_allocator as aa
+    from ethosu.vela.operation import Kernel
+    from ethosu.vela.architecture_features import Block
+    from ethosu.vela.ethos_u55_regs.ethos_u55_regs import resampling_mode
+
+    bh, bw = V.int("stripe_h", 1, 4096), V.int("stripe_w", 1, 4096)
+    kh, kw = V.int("kh", 1, 8), V.int("kw", 1, 8)
+    sy, sx = V.int("stride_y", 1, 3), V.int("stride_x", 1, 3)
+    rm = {"none": resampling_mode.NONE, "nearest": resampling_mode.NEAREST, "transpose": resampling_mode.TRANSPOSE}[mode]
+    with core.shims(*(_shims() + (_aa_shims(),))):
+        w1, h1 = aa.get_ifm_area_required(Block(bw, bh, 16), Kernel(kw, kh, sx, sy), rm)
+    cl = []
+    for name, got, v, st, k in (("rows", h1, bh, sy, kh), ("columns", w1, bw, sx, kw)):
+        n = (L(v) - 1) * L(st) + L(k)
+        need = {"none": n, "nearest": (n + 2) / 2, "transpose": (n + 1) / 2}[mode]  # ceil((n+1)/2), ceil(n/2)
+        cl.append(("%s reserved cover the window's input %s (%s upscaling)" % (name, name, mode), L(got) >= need))
+        cl.append(("%s reserved are at most one above it" % name, L(got) <= need + 1))
+    return cl
+
+
 def stripe_input(V):
     """the input volume the scheduler records for a striped operator (SchedulerOperation.create_scheduler_info -> stripe_input, the consumer side of
     rolling_buffer_shape): the rows and columns the stripe's receptive field needs, limited to the IFM's own height and width - height by height,
@@ -745,7 +771,7 @@ def kernel_conversion(V, **params):
     return c04.kernel_conversion(V, **params)
 
 
-FUNCS = {"kernel_conversion": kernel_conversion, "stripe_input": stripe_input, "restripe_buffers": restripe_buffers, "apply_twice": apply_twice, "cascadable": cascadable, "rolling_dims": rolling_dims, "tconv_pads": tconv_pads, "stripe_proposals": stripe_proposals, "rows": rows, "cols": cols, "rows_upscaled": rows_upscaled, "area": area, "cascade": cascade}
+FUNCS = {"area_required": area_required, "kernel_conversion": kernel_conversion, "stripe_input": stripe_input, "restripe_buffers": restripe_buffers, "apply_twice": apply_twice, "cascadable": cascadable, "rolling_dims": rolling_dims, "tconv_pads": tconv_pads, "stripe_proposals": stripe_proposals, "rows": rows, "cols": cols, "rows_upscaled": rows_upscaled, "area": area, "cascade": cascade}
 
 
 
@@ -772,6 +798,8 @@ def instances(tier, seed):
     out.append(dict(key="kernel_conversion", fn="kernel_conversion", params={}))
     out.append(dict(key="cascadable", fn="cascadable", params={}))
     out.append(dict(key="stripe_input", fn="stripe_input", params={}))
+    for m in ("none", "nearest", "transpose"):
+        out.append(dict(key="area_required/%s" % m, fn="area_required", params=dict(mode=m)))
     for nb in (1, 2):
         out.append(dict(key="restripe_buffers/%d" % nb, fn="restripe_buffers", params=dict(nbuf=nb)))
     for fc in (0, 1):
